@@ -641,7 +641,10 @@ class MQTTBaseProtocol(Protocol):
             request.deferred.callback(response.session)
         else:
             self.state = self.IDLE
-            msg = MQTT_CONNECT_CODES[response.resultCode]
+            if response.resultCode < len(MQTT_CONNECT_CODES):
+                msg = MQTT_CONNECT_CODES[response.resultCode]
+            else:
+                msg = "Connection Refused, reserved return code"
             request.deferred.errback(MQTTStateError(response.resultCode, msg))
         self.connReq = None     # to be garbage-collected
       
